@@ -457,6 +457,17 @@ func (e *Engine) evalD(c *config, v ssa.Value, d int) Abs {
 			}
 		}
 	case *ssa.BinOp:
+		switch v.Op {
+		case token.REM, token.QUO, token.MUL, token.AND, token.SHL, token.SHR:
+			// 0 op k = 0
+			if e.evalD(c, v.X, d+1) == Zero {
+				return Zero
+			}
+			if (v.Op == token.MUL || v.Op == token.AND) && e.evalD(c, v.Y, d+1) == Zero {
+				return Zero
+			}
+			return Unknown
+		}
 		if v.Op == token.EQL || v.Op == token.NEQ {
 			var other ssa.Value
 			var k *ssa.Const
@@ -554,6 +565,11 @@ func (e *Engine) assume(c *config, v ssa.Value, a Abs, d int) bool {
 	}
 	cur := e.evalD(c, v, 0)
 	if cur != Unknown {
+		if cur == a && e.R.Flag != nil {
+			if i, ok := e.R.Flag(v); ok {
+				c.s = c.s.WithFlag(i, a)
+			}
+		}
 		return cur == a
 	}
 	if e.R.Flag != nil {
@@ -1029,6 +1045,11 @@ func (e *Engine) enter(n *config, from, to *ssa.BasicBlock) bool {
 		}
 		if _, has := e.ids[u.v]; has {
 			e.setFact(n, u.v, u.a)
+		}
+		if e.R.Flag != nil {
+			if i, ok := e.R.Flag(u.v); ok {
+				n.s = n.s.WithFlag(i, u.a)
+			}
 		}
 	}
 	n.block = to
